@@ -24,7 +24,7 @@ def run(tier, seed):
     res = {"violations": [], "broken": [], "coverage": {}}
     tie = mu_common.tie(res, "note_replay", "NoteModel", [("note_mix", {"VRT_FAMILY": f}, 150, 1500) for f in (0, 1, 3)] +
                         [("note_f8", {}, 100, 1000), ("note_f9", {}, 100, 1000)], tier, seed)
-    specs = [("note_mix", {"VRT_FAMILY": f}, 2500, 50000) for f in (0, 1, 3)] + [("note_f8", {}, 4000, 60000), ("note_f9", {}, 2500, 40000), ("note_mix", {"VRT_PLAINPM": 40}, 2000, 40000)]
+    specs = [("note_mix", {"VRT_FAMILY": f}, 2500, 50000) for f in (0, 1, 3, 4)] + [("note_f8", {}, 4000, 60000), ("note_f9", {}, 2500, 40000), ("note_mix", {"VRT_PLAINPM": 40}, 2000, 40000)]
     cov = scen_common.run_scenarios(res, specs, tier, seed, {"C08"} | scen_common.MEMORY | scen_common.LIVENESS | scen_common.CRASHES)
     cov["rule"] = ("note_mix families 0 (notify(P) | free(C) with grandchild | poll/wait G | new child), 1 (two notifiers of one child | "
                    "free(parent)), 3; note_f8 (q->n->g: notify(q);free(q) | free(n) | free(g)), note_f9 (P->c->g: free(c) | free(P)); arena "
